@@ -343,9 +343,11 @@ static void *watchdog (void *arg)
     (void) arg;
     for (;;) {
         usleep (100000);
-        if (WD_GET () && now_s () > WD_GET ()) {
+        long dl = WD_GET ();        /* read ONCE: the main thread clears and re-arms it between programs */
+        if (dl && now_s () > dl) {
             __real_pthread_mutex_lock (&out_lock);
-            if (!WD_GET ()) { __real_pthread_mutex_unlock (&out_lock); continue; }
+            /* still the same program's deadline?  (otherwise that program finished while we waited for the lock) */
+            if (WD_GET () != dl) { __real_pthread_mutex_unlock (&out_lock); continue; }
             printf ("%s", res_prefix);
             print_proc ();
             printf (" waitret=? cancelpend=%d finiret=? qfail=? hang=1 phase=%d pending=%d idle=%d",
